@@ -4,7 +4,7 @@ use tracing::warn;
 
 use crate::bsp::{BspAxisType, BspNodeExt};
 use crate::chunk::ChunkHeader;
-use crate::error::Result;
+use crate::error::{Result, WmoError};
 use crate::parser::chunks;
 use crate::types::{Color, Vec3};
 use crate::version::{WmoFeature, WmoVersion};
@@ -977,6 +977,15 @@ impl WmoWriter {
         liquid: &WmoLiquid,
         target_version: WmoVersion,
     ) -> Result<()> {
+        // The grid is stored as (width - 1, height - 1) tiles: a liquid without vertices in
+        // one direction cannot be represented (and the subtraction below would overflow)
+        if liquid.width == 0 || liquid.height == 0 {
+            return Err(WmoError::InvalidFormat(format!(
+                "liquid grid of {}x{} vertices cannot be written",
+                liquid.width, liquid.height
+            )));
+        }
+
         // Calculate size based on version and content
         let vertex_size = if target_version >= WmoVersion::Wod {
             16
